@@ -76,6 +76,15 @@ fn compare(ctx: &Context, sys: &TransitionSystem, f: &RefFile, text: &str) -> Re
             ),
         ));
     }
+    // distinct declarations are distinct variables
+    {
+        let mut seen = std::collections::BTreeMap::new();
+        for (what, e) in sys.inputs.iter().enumerate().map(|(k, e)| (format!("input #{k}"), *e)).chain(sys.states.iter().enumerate().map(|(k, s)| (format!("state #{k}"), s.symbol))) {
+            if let Some(prev) = seen.insert(e, what.clone()) {
+                return Err(("decl-collapsed".into(), format!("`{one_line}`: {prev} and {what} are two declarations but the reader gives them the same symbol `{}`", ctx.get_symbol_name(e).unwrap_or("?"))));
+            }
+        }
+    }
     let mut sym_of: BTreeMap<u64, ExprRef> = BTreeMap::new();
     for (k, id) in eff_in.iter().enumerate() {
         let want = ty_of_sort(f.sort_of(*id));
@@ -823,6 +832,34 @@ pub fn operand_variants(text: &str) -> Vec<String> {
     out
 }
 
+/// Name collisions: three declarations of one sort (inputs and/or states) named from a small alphabet of
+/// user names, suffixed names and the reader's own default names (or unnamed), in every order; the three
+/// must stay three different variables.
+pub fn name_files() -> Vec<String> {
+    let names = ["", "x", "x_0", "x_1", "_input_0", "_input_1", "_state_0", "_state_1"];
+    let kinds = [["input", "input", "input"], ["state", "state", "state"], ["input", "state", "input"], ["state", "input", "state"]];
+    let mut out = vec![];
+    for ks in kinds.iter() {
+        for a in names {
+            for b in names {
+                for c in names {
+                    let mut tb = Tb::new();
+                    let s = tb.sort(Sort::Bv(2));
+                    let ids: Vec<u64> = [(ks[0], a), (ks[1], b), (ks[2], c)].iter().map(|(k, n)| tb.line(&format!("{k} {s}{}{n}", if n.is_empty() { "" } else { " " }))).collect();
+                    let d1 = tb.line(&format!("sub {s} {} {}", ids[0], ids[1]));
+                    let d2 = tb.line(&format!("sub {s} {} {}", ids[1], ids[2]));
+                    let d3 = tb.line(&format!("xor {s} {} {}", ids[0], ids[2]));
+                    tb.line(&format!("output {d1}"));
+                    tb.line(&format!("output {d2}"));
+                    tb.line(&format!("output {d3}"));
+                    out.push(tb.text());
+                }
+            }
+        }
+    }
+    out
+}
+
 // ------------------------------------------------------------------ driver
 
 struct Stage {
@@ -996,6 +1033,7 @@ pub fn run(opts: &Opts, rep: &Report) {
         Stage { name: "single", texts: single },
         Stage { name: "const", texts: consts },
         Stage { name: "attach", texts: attach },
+        Stage { name: "names", texts: name_files() },
         Stage { name: "order", texts: orders },
         Stage { name: "illsorted", texts: ill },
         Stage { name: "operand-mutants", texts: opnd },
